@@ -51,7 +51,7 @@ func TestC05(t *testing.T) {
 	for _, ctx := range []bool{false, true} {
 		for _, async := range []bool{false, true} {
 			for opt := 0; opt < 4; opt++ {
-				for pk := 0; pk <= 5; pk++ {
+				for pk := 0; pk <= 6; pk++ {
 					r := prog.Reg{Ctx: ctx, Async: async, PanicKind: pk}
 					switch opt {
 					case 1:
